@@ -232,8 +232,10 @@ static void sched_child(const void *job, size_t n) {
 		uint8_t cap = 200, m[16], f[40]; int ml = rc_build_msg(m, IFACE, 0, MSG_PKT_CAPACITY, &cap, 1);
 		env_push_quiet(f, rc_frame(f, m, (size_t) ml, 1));
 	}
+	vs_window(1);
 	int t1 = vs_spawn(s_t1, NULL), t2 = vs_spawn(s_t2, NULL), t3 = vs_spawn(s_t3, NULL);
 	vs_join_tid(t1); vs_join_tid(t2); vs_join_tid(t3);
+	vs_window(0);
 	hx_quiesce(); bidib_flush();
 	static rc_pkt_t pk[32]; char err[200];
 	int np = rc_decode_strict(env_out(), env_out_len(), pk, 32, err, sizeof err);
